@@ -28,21 +28,33 @@ func newCsEnv(symbolicParams bool) *csEnv { return newCsEnvFee(symbolicParams, c
 
 // newCsEnvFee: the same with the denomination of the pool-creation fee given by the caller
 func newCsEnvFee(symbolicParams bool, feeDenom string) *csEnv {
+	return newCsEnvWith(symbolicParams, feeDenom, false)
+}
+
+// newCsEnvWith: with unrestricted the three decimals and the fee amount are ANY values (absent, negative,
+// above one ...) and only the repository's own Validate() narrows them
+func newCsEnvWith(symbolicParams bool, feeDenom string, unrestricted bool) *csEnv {
 	e := &csEnv{vEnv: newVEnv(types.StoreKey, 10, csStd, "btc", "eth")}
 	e.bank.modules[types.ModuleName] = []string{authtypes.Minter, authtypes.Burner}
 	e.bank.modules[csFeeCollector] = nil
 	e.sender, e.other, e.holder = vAddr(1), vAddr(2), vAddr(3)
-	e.k = Keeper{cdc: e.cdc, storeKey: e.key, bk: e.bank, ak: e.acc, feeCollectorName: csFeeCollector,
-		authority: vAddr(9).String(), blockedAddrs: e.bank.blocked}
+	e.k = NewKeeper(e.cdc, e.key, e.bank, e.acc, csFeeCollector, vAddr(9).String()) // the app's own constructor
 	e.k.SetStandardDenom(e.ctx, csStd)
 	p := types.DefaultParams()
 	if symbolicParams {
-		e18 := verifPow10(18)
-		p.Fee = verifDec("fee", big.NewInt(0), e18)
-		p.UnilateralLiquidityFee = verifDec("ufee", big.NewInt(0), e18)
-		p.TaxRate = verifDec("tax", big.NewInt(0), e18)
-		p.PoolCreationFee = sdk.Coin{Denom: feeDenom, Amount: verifIntIn("pcf", big.NewInt(0), verifPow2(128))}
-		verifAssume(p.Validate() == nil) // the repository's own validation is the precondition
+		if unrestricted {
+			p.Fee, p.UnilateralLiquidityFee, p.TaxRate = verifDecAny("fee"), verifDecAny("ufee"), verifDecAny("tax")
+			p.PoolCreationFee = sdk.Coin{Denom: feeDenom, Amount: verifIntAny("pcf")}
+		} else {
+			e18 := verifPow10(18)
+			p.Fee = verifDec("fee", big.NewInt(0), e18)
+			p.UnilateralLiquidityFee = verifDec("ufee", big.NewInt(0), e18)
+			p.TaxRate = verifDec("tax", big.NewInt(0), e18)
+			p.PoolCreationFee = sdk.Coin{Denom: feeDenom, Amount: verifIntIn("pcf", big.NewInt(0), verifPow2(128))}
+		}
+		var vErr error
+		vPanicked, _ := verifCatch(func() { vErr = p.Validate() })
+		verifAssume(!vPanicked && vErr == nil) // the repository's own validation is the precondition
 	}
 	if err := e.k.SetParams(e.ctx, p); err != nil {
 		verifFail("SetParams rejected validated params")
